@@ -34,7 +34,7 @@ def _job(job):
             shutil.rmtree(d, ignore_errors=True)
         return ev
     ev, _ = pipeline.run_compute(job["spec"], job["seed"], job.get("scheduler", "sync"), job.get("write", True), job.get("fault"),
-                                 out_name=job.get("out_name", "out.fits"))
+                                 out_name=job.get("out_name", "out.fits"), path_form=job.get("path_form", "str"))
     return ev
 
 
@@ -91,6 +91,18 @@ def run(tier="quick", seed=0):
                  "fault": ("boundary", 9, "raise")})
     # a run in which no trajectory survives (early return) with write_stages
     jobs.append({"kind": "clean", "spec": {"mode": "Target", "thrown": 20, "obst": 600.0, "ra": 0.0, "dec": 1.5}, "seed": seed})
+    # ... and with intermediate writing DISABLED (the early return must not write either), in both modes (Diffuse: a single throw at a narrow
+    # annulus frequently leaves no survivor - seeds that do are found by trying)
+    jobs.append({"kind": "clean-nowrite-empty", "spec": {"mode": "Target", "thrown": 20, "obst": 600.0, "ra": 0.0, "dec": 1.5}, "seed": seed, "write": False})
+    for sd in range(8):
+        jobs.append({"kind": "clean-nowrite-empty", "spec": {"mode": "Diffuse", "thrown": 1, "limb": float(np.radians(0.2))}, "seed": seed + 200 + sd, "write": False})
+        jobs.append({"kind": "clean-maybe-empty", "spec": {"mode": "Diffuse", "thrown": 1, "limb": float(np.radians(0.2))}, "seed": seed + 200 + sd})
+    # the output file given as a path object instead of a str
+    for mode in ("Diffuse", "Target"):
+        jobs.append({"kind": "clean-pathlib", "spec": _spec_of(mode, True, True, thrown), "seed": seed + 8, "path_form": "pathlib"})
+        jobs.append({"kind": "raise-pathlib", "spec": _spec_of(mode, True, True, thrown), "seed": seed + 8, "path_form": "pathlib",
+                     "fault": ("boundary", 9, "raise")})
+        jobs.append({"kind": "nowrite-pathlib", "spec": _spec_of(mode, True, True, thrown), "seed": seed + 8, "path_form": "pathlib", "write": False})
     traces = par.pmap(_job, jobs, workers=14)
     traces = [t for t in traces if t]
     groups = [[] for _ in range(min(16, len(traces)))]
